@@ -4053,3 +4053,195 @@ C19_RUN_SUBSEQUENT_CLOSED = dict(_CMD_CLOSED, func="run_subsequent_batch_plate",
                                  pyparams=C19_RUN_SUBSEQUENT["pyparams"], pydefaults=C19_RUN_SUBSEQUENT["pydefaults"],
                                  params=_CLOSED_PARAMS + C19_RUN_SUBSEQUENT["params"], vars=C19_RUN_SUBSEQUENT["vars"])
 ALL += [C19_RUN_INITIAL_CLOSED, C19_RUN_FIRST_CLOSED, C19_RUN_FIRST_PROSP_CLOSED, C19_RUN_SUBSEQUENT_CLOSED]
+# ---- the small functions (wave 6): ExperimentSpace.__init__ and its query methods (data.py; vocabulary: last part of
+# Model/Persist.v; generated file Generated/SrcSpaceMethods.v; proofs Proofs/C01Source_Space*.v).  An ExperimentSpace object is
+# `pyspace` = its three instance attributes as stored (two tuples of arrays, a string): typed fields.  A dose is its order key
+# (the literal 0.0 is key 0).  Trusted per entry, ONE numpy call / tuple projection each:
+#   m[0], m[1], m[2]            the components of a mapping tuple
+#   np.array([x])               the array of that list (the same values)
+#   a == v                      elementwise on a str / int array
+#   a[mask]                     boolean-mask selection (IndexError, tag 35, on another length)
+#   a.item()                    the only element of an array of size 1, else ValueError (tag 36)
+#   np.unique(a)                the sorted distinct values;  np.sort(a);  a.size
+#   np.setdiff1d(a, b)          the sorted distinct values of a not in b
+_LS_SPACE_FIELDS = {
+    "treatment_mapping": ("pyspace", _TMAP_T, "pysp_tmap {obj}", "set_pysp_tmap {obj} {val}"),
+    "sample_mapping": ("pyspace", _SMAP_T, "pysp_smap {obj}", "set_pysp_smap {obj} {val}"),
+    "control_treatment_name": ("pyspace", "name", "pysp_ctrl {obj}", "set_pysp_ctrl {obj} {val}")}
+_LS_SPACE = dict(file="src/batchie/data.py", cls="ExperimentSpace", out="SrcSpaceMethods.v",
+                 imports="Generated.Consts Model.Encode Model.Screen Model.Persist", overload=True, fields=_LS_SPACE_FIELDS,
+                 float_consts={"0.0": ("0", "Z")})
+_LS_SPACE_NUMPY = _TUPLE_ITEMS + [
+    ("np.array(__a)", "{a}", "list name", {"a": "list name"}), ("np.array(__a)", "{a}", "list Z", {"a": "list Z"}),
+    ("__a == __v", "arr_eq_name {a} {v}", "list bool", {"a": "list name", "v": "name"}),
+    ("__a == __v", "arr_eq_id {a} {v}", "list bool", {"a": "list Z", "v": "Z"}),
+    ("__a[__m]", "!arr_mask {a} {m}", "list name", {"a": "list name", "m": "list bool"}),
+    ("__a[__m]", "!arr_mask {a} {m}", "list Z", {"a": "list Z", "m": "list bool"}),
+    ("__a.item()", "!arr_item {a}", "name", {"a": "list name"}), ("__a.item()", "!arr_item {a}", "Z", {"a": "list Z"}),
+    ("np.unique(__a)", "sort_uniq name_cmp {a}", "list name", {"a": "list name"}),
+    ("np.unique(__a)", "sort_uniq Z.compare {a}", "list Z", {"a": "list Z"}),
+    ("np.sort(__a)", "np_sort_Z {a}", "list Z", {"a": "list Z"}),
+    ("np.setdiff1d(__a, __b)", "setdiff1d_names {a} {b}", "list name", {"a": "list name", "b": "list name"}),
+    ("np.setdiff1d(__a, __b)", "np_setdiff1d {a} {b}", "list Z", {"a": "list Z", "b": "list Z"}),
+    ("__a.size", "Z.of_nat (length {a})", "Z", {"a": "list name"}), ("__a.size", "Z.of_nat (length {a})", "Z", {"a": "list Z"}),
+]
+LS_SPACE_INIT = dict(
+    _LS_SPACE, func="__init__", name="src_space_init",
+    pyparams=["self", "treatment_mapping", "sample_mapping", "control_treatment_name"], pydefaults=["''"],
+    params=[("self", "pyspace"), ("treatment_mapping", _TMAP_T), ("sample_mapping", _SMAP_T), ("control_treatment_name", "name")],
+    returns="pyspace", vars={}, implicit_return="{self}")
+
+
+def _ls_space_method(func, name, ret, extra_params=(), local_vars=None):
+    return dict(_LS_SPACE, func=func, name=name, pyparams=["self"] + [p for p, _ in extra_params],
+                params=[("self", "pyspace")] + list(extra_params), returns=ret, vars=dict(local_vars or {}), prims=_LS_SPACE_NUMPY)
+
+
+_SEL = {"selection": "list bool"}
+LS_SPACE_N_TYPES = _ls_space_method("n_unique_treatment_types", "src_space_n_unique_treatment_types", "Z")
+LS_SPACE_N_DOSES = _ls_space_method("n_unique_doses", "src_space_n_unique_doses", "Z")
+LS_SPACE_DOSES_FOR = _ls_space_method("doses_for_treatment", "src_space_doses_for_treatment", "list Z", [("treatment_name", "name")], _SEL)
+LS_SPACE_IDS_FROM_NAME = _ls_space_method("treatment_ids_from_treatment_name", "src_space_treatment_ids_from_treatment_name", "list Z",
+                                          [("treatment_name", "name")], _SEL)
+LS_SPACE_SAMPLE_ID = _ls_space_method("sample_id_from_sample_name", "src_space_sample_id_from_sample_name", "Z", [("sample_name", "name")], _SEL)
+LS_SPACE_SAMPLE_NAME = _ls_space_method("sample_name_from_sample_id", "src_space_sample_name_from_sample_id", "name", [("sample_id", "Z")], _SEL)
+LS_SPACE_ALL = [LS_SPACE_INIT, LS_SPACE_N_TYPES, LS_SPACE_N_DOSES, LS_SPACE_DOSES_FOR, LS_SPACE_IDS_FROM_NAME, LS_SPACE_SAMPLE_ID,
+                LS_SPACE_SAMPLE_NAME]
+ALL += LS_SPACE_ALL
+# ---- the small functions (wave 6): the attribute getters of Screen (`return self._<attr>`) and ScreenBase.sample_space_size /
+# treatment_space_size on both kinds of receiver (data.py; vocabulary: Model/Views.v; generated file Generated/SrcScreenAttrs.v; proofs
+# Proofs/C14Source_ScreenAttrs.v, C14Source_SpaceSize.v).  A Screen object is `pyscreen` = (identity, contents) as in the C14 block;
+# its PRIVATE attributes are read-only typed fields: the array / mapping the model screen holds in that place.  The getters'
+# theorems say that each property returns exactly the value the C14 block's _SCREEN_ATTRS primitives gave `s.<attr>`.
+_LS_NO_STORE = "a_getter_of_Screen_never_stores {obj} {val}"          # not a Gallina term: a store to a private attribute is refused by Coq
+_LS_SCREEN_PRIVATE = {
+    "_plate_ids": ("pyscreen", "list Z", "s_pids (snd {obj})", _LS_NO_STORE),
+    "_sample_ids": ("pyscreen", "list Z", "s_sids (snd {obj})", _LS_NO_STORE),
+    "_treatment_ids": ("pyscreen", "list (list Z)", "s_tids (snd {obj})", _LS_NO_STORE),
+    "_sample_names": ("pyscreen", "list name", "map r_sample (s_rows (snd {obj}))", _LS_NO_STORE),
+    "_treatment_names": ("pyscreen", "(arr2 name)", "screen_treatment_names (snd {obj})", _LS_NO_STORE),
+    "_treatment_doses": ("pyscreen", "(arr2 Z)", "screen_treatment_doses (snd {obj})", _LS_NO_STORE),
+    "_observations": ("pyscreen", "list Z", "map r_obs (s_rows (snd {obj}))", _LS_NO_STORE),
+    "_observation_mask": ("pyscreen", "list bool", "screen_mask (snd {obj})", _LS_NO_STORE),
+    "_treatment_mapping": ("pyscreen", "tmapping", "s_tmap (snd {obj})", _LS_NO_STORE),
+    "_sample_mapping": ("pyscreen", "nmapping", "s_smap (snd {obj})", _LS_NO_STORE),
+    "_plate_mapping": ("pyscreen", "nmapping", "s_pmap (snd {obj})", _LS_NO_STORE)}
+_LS_SCREEN = dict(file="src/batchie/data.py", out="SrcScreenAttrs.v", imports="Model.Encode Model.Screen Model.Views Generated.SrcViews",
+                  overload=True, pyparams=["self"], vars={})
+LS_SCREEN_GETTERS = [
+    dict(_LS_SCREEN, cls="Screen", func=f, name="src_screen_" + f, params=[("self", "pyscreen")], returns=t, fields=_LS_SCREEN_PRIVATE)
+    for f, t in [("plate_ids", "list Z"), ("sample_ids", "list Z"), ("treatment_ids", "list (list Z)"), ("sample_names", "list name"),
+                 ("treatment_names", "(arr2 name)"), ("treatment_doses", "(arr2 Z)"), ("observations", "list Z"),
+                 ("observation_mask", "list bool"), ("treatment_mapping", "tmapping"), ("sample_mapping", "nmapping"),
+                 ("plate_mapping", "nmapping")]]
+# len(self.<x>_mapping[0]): the mapping property runs its translation; m[0] = the names column of the mapping's rows
+_LS_MAP_COLS = [("__m[0]", "map fst {m}", "list name", {"m": "nmapping"}),
+                ("__m[0]", "map (fun e__ => fst (fst e__)) {m}", "list name", {"m": "tmapping"}),
+                ("len(__l)", "Z.of_nat (length {l})", "Z", {"l": "list name"})]
+LS_SPACE_SIZES = [
+    dict(_LS_SCREEN, cls="ScreenBase", func=f, name="src_%s_%s" % (kind, f), params=[("self", ty)], returns="Z",
+         prims=[("self.%s" % attr, "!src_%s_%s self'" % (kind, attr), mt)] + _LS_MAP_COLS)
+    for kind, ty in [("screen", "pyscreen"), ("view", "view")]
+    for f, attr, mt in [("sample_space_size", "sample_mapping", "nmapping"), ("treatment_space_size", "treatment_mapping", "tmapping")]]
+ALL += LS_SCREEN_GETTERS + LS_SPACE_SIZES
+# ---- the small functions (wave 6): the __init__ methods that only store their arguments (generated file Generated/SrcInits.v; proofs
+# one file per class, Proofs/C??Source_Init_<Class>.v).  `self.<attr>` is a variable (attr_vars); the value of the translation is the
+# tuple of the attributes when the method ends, in the order of the model parameters the links of the class's methods take - so
+# "the k the policy filters with is the k it was constructed with" is a theorem about the source.  Nothing is trusted but the
+# translator (no primitive), except the one ignored statement of GaussianDBALScorer (see there).
+def _ls_init(file, cls, name, args, attrs, **more):
+    """args: [(python parameter, type)]; attrs: the attribute names, in the order of the returned tuple"""
+    types = dict(args)
+    ret = [a if isinstance(a, tuple) else (a, types[a]) for a in attrs]      # (attribute, type)
+    return dict(dict(file=file, cls=cls, func="__init__", out="SrcInits.v", imports="Model.Encode", name=name,
+                     pyparams=["self"] + [a for a, _ in args], params=list(args),
+                     attr_vars={"self." + a: "self_" + a for a, _ in ret}, vars={"self_" + a: t for a, t in ret},
+                     returns=ret[0][1] if len(ret) == 1 else "(" + " * ".join(t for _, t in ret) + ")",
+                     implicit_return="{self_%s}" % ret[0][0] if len(ret) == 1 else "(" + ", ".join("{self_%s}" % a for a, _ in ret) + ")"),
+                **more)
+
+
+_RETRO_PY = "src/batchie/retrospective.py"
+LS_INIT_SPARSE_COVER = _ls_init(_RETRO_PY, "SparseCoverPlateGenerator", "src_sparse_cover_init",
+                                [("reveal_single_treatment_experiments", "bool")], ["reveal_single_treatment_experiments"])
+LS_INIT_PAIRWISE = _ls_init(_RETRO_PY, "PairwisePlateGenerator", "src_pairwise_init", [("subset_size", "Z"), ("anchor_size", "Z")],
+                            ["subset_size", "anchor_size"])
+LS_INIT_PLATE_PERMUTATION = _ls_init(_RETRO_PY, "PlatePermutationPlateGenerator", "src_plate_permutation_init",
+                                     [("force_include_plate_names", "opt list name")], ["force_include_plate_names"], pydefaults=["None"])
+LS_INIT_SAMPLE_SEG = _ls_init(_RETRO_PY, "SampleSegregatingPermutationPlateGenerator", "src_sample_seg_init", [("max_plate_size", "Z")],
+                              ["max_plate_size"])
+LS_INIT_MERGE_MIN = _ls_init(_RETRO_PY, "MergeMinPlateSmoother", "src_merge_min_init", [("min_size", "Z")], ["min_size"])
+LS_INIT_MERGE_TB = _ls_init(_RETRO_PY, "MergeTopBottomPlateSmoother", "src_merge_tb_init", [("n_iterations", "Z")], ["n_iterations"])
+LS_INIT_FIXED_SIZE = _ls_init(_RETRO_PY, "FixedSizeSmoother", "src_fixed_size_init", [("plate_size", "Z")], ["plate_size"])
+LS_INIT_NPLATE = _ls_init(_RETRO_PY, "NPlatePerCellLineSmoother", "src_nplate_init", [("min_n_cell_line_plates", "Z")],
+                          ["min_n_cell_line_plates"])
+LS_INIT_ENSEMBLE = _ls_init(_RETRO_PY, "BatchieEnsemblePlateSmoother", "src_ensemble_init",
+                            [("min_size", "Z"), ("n_iterations", "Z"), ("min_n_cell_line_plates", "Z")],
+                            ["min_size", "n_iterations", "min_n_cell_line_plates"])
+LS_INIT_POLICY = _ls_init("src/batchie/policies/k_per_sample.py", "KPerSamplePlatePolicy", "src_k_per_sample_init", [("k", "Z")], ["k"])
+LS_INIT_MSE = _ls_init("src/batchie/distance/mse.py", "MSEDistance", "src_mse_distance_init", [("sigmoid", "bool")], ["sigmoid"],
+                       pydefaults=["True"])
+# GaussianDBALScorer.__init__(self, max_chunk=50, max_triples=5000, **kwargs): `super().__init__(**kwargs)` is IGNORED - trusted: the
+# base class Scorer defines no __init__ (object.__init__ stores nothing; its TypeError for a non-empty kwargs is not modelled)
+LS_INIT_DBAL = _ls_init("src/batchie/scoring/gaussian_dbal.py", "GaussianDBALScorer", "src_dbal_scorer_init",
+                        [("max_chunk", "Z"), ("max_triples", "Z")], ["max_chunk", "max_triples"], pydefaults=["50", "5000"],
+                        ignore=["super().__init__(**kwargs)"])
+# BayesianModel.__init__ / Metric.__init__ (core.py): the stored object is opaque
+LS_INIT_BAYESIAN = _ls_init("src/batchie/core.py", "BayesianModel", "src_bayesian_model_init", [("experiment_space", "Sp")],
+                            ["experiment_space"])
+LS_INIT_BAYESIAN["params"] = [("Sp", "Type")] + LS_INIT_BAYESIAN["params"]
+LS_INIT_METRIC = _ls_init("src/batchie/core.py", "Metric", "src_metric_init", [("model", "Mo")], ["model"])
+LS_INIT_METRIC["params"] = [("Mo", "Type")] + LS_INIT_METRIC["params"]
+LS_INITS = [LS_INIT_SPARSE_COVER, LS_INIT_PAIRWISE, LS_INIT_PLATE_PERMUTATION, LS_INIT_SAMPLE_SEG, LS_INIT_MERGE_MIN, LS_INIT_MERGE_TB,
+            LS_INIT_FIXED_SIZE, LS_INIT_NPLATE, LS_INIT_ENSEMBLE, LS_INIT_POLICY, LS_INIT_MSE, LS_INIT_DBAL, LS_INIT_BAYESIAN, LS_INIT_METRIC]
+ALL += LS_INITS
+# ---- the small functions (wave 6): ThetaHolder.__iter__ and Metric.evaluate_all (core.py; vocabulary: Model/Thetas.v; generated file
+# Generated/SrcCoreSmall.v; proofs Proofs/C10Source_Iter.v, C10Source_EvaluateAll.v).  A holder object is `pyobj` as in the C10 block.
+# __iter__ is a generator: it denotes the list it yields.  evaluate_all: iterating the holder runs the translated __iter__; the
+# abstract method self.evaluate is ANY function `ev` of a sample that may raise; np.array(list) = the same values.
+LS_HOLDER_ITER = dict(
+    _C10, out="SrcCoreSmall.v", func="__iter__", name="src_holder_iter", pyparams=["self"],
+    params=[("P", "Type"), ("S", "Type"), ("self", _OBJ)], returns="list " + _THETA, generator=_THETA, vars={"theta": _THETA})
+LS_METRIC_EVALUATE_ALL = dict(
+    file="src/batchie/core.py", cls="Metric", func="evaluate_all", out="SrcCoreSmall.v", imports="Model.Thetas", name="src_metric_evaluate_all",
+    pyparams=["self", "results_holder"],
+    params=[("P", "Type"), ("S", "Type"), ("V", "Type"), ("ev", "theta P S -> result V"), ("results_holder", _OBJ)],
+    returns="list V", vars={"x": _THETA},
+    prims=[("results_holder", "!src_holder_iter P S results_holder'", "list " + _THETA),       # `for x in holder` = holder.__iter__()
+           ("self.evaluate(__x)", "!ev {x}", "V", {"x": _THETA}),
+           ("np.array(__l)", "{l}", "list V", {"l": "list V"})])
+ALL += [LS_HOLDER_ITER, LS_METRIC_EVALUATE_ALL]
+# ---- the small functions (wave 6): SimulationTracker.__init__ / save / load (core.py; vocabulary: Model/Tracker.v; generated file
+# Generated/SrcTracker.v; proofs Proofs/C10Source_Tracker.v).  J = a JSON-native value; the object is the triple of its attributes (typed
+# fields); the JSON file is `jfile J`.  Trusted per entry, ONE call each:
+#   open(fn, "w") as f = a new empty file;  open(fn, "r") as f = what the file holds (the parameter `file`)
+#   self.__dict__                the instance dict: the three attributes __init__ assigns, by name, in that order
+#   json.dump(d, f)              the file then holds the object d (a second document in one file: tag 95)
+#   json.load(f)                 the object the file holds (an empty file: tag 95)
+# cls(**data) is the translator's keyword call with ** unpacking (TypeError = tag 93 unless the keys are exactly the parameters).
+_TRK = "(pytracker J)"
+_TRK_FIELDS = {"plate_ids_selected": (_TRK, "J", "tr_plates {obj}", "set_tr_plates {obj} {val}"),
+               "losses": (_TRK, "J", "tr_losses {obj}", "set_tr_losses {obj} {val}"),
+               "seed": (_TRK, "J", "tr_seed {obj}", "set_tr_seed {obj} {val}")}
+_LS_TRACKER = dict(file="src/batchie/core.py", cls="SimulationTracker", out="SrcTracker.v", imports="Model.Tracker", fields=_TRK_FIELDS,
+                   strings=True, strdict_elem="J", type_error=93, key_error=93)
+LS_TRACKER_INIT = dict(
+    _LS_TRACKER, func="__init__", name="src_tracker_init", pyparams=["self", "plate_ids_selected", "losses", "seed"],
+    params=[("J", "Type"), ("self", _TRK), ("plate_ids_selected", "J"), ("losses", "J"), ("seed", "J")], returns=_TRK, vars={},
+    implicit_return="{self}")
+LS_TRACKER_SAVE = dict(
+    _LS_TRACKER, func="save", name="src_tracker_save", pyparams=["self", "fn"],
+    params=[("J", "Type"), ("self", _TRK)], returns="(jfile J)", vars={"f": "(jfile J)"},       # returns what has been written to `fn`
+    contexts=[("open(fn, 'w')", "jfile_new", "(jfile J)")],
+    prims=[("self.__dict__", "tracker_dict self'", "strdict J")],
+    typed_effects=[("json.dump(__d, f)", "f'", "!json_dump {state} {d}", {"d": "strdict J"})],
+    implicit_return="{f}")
+LS_TRACKER_LOAD = dict(
+    _LS_TRACKER, func="load", name="src_tracker_load", pyparams=["cls", "fn"],
+    # file = what `fn` holds; blank = the fresh instance cls.__new__ makes (ANY value: __init__ overwrites all three attributes)
+    params=[("J", "Type"), ("blank", _TRK), ("file", "(jfile J)")], returns=_TRK, vars={"f": "(jfile J)", "data": "strdict J"},
+    contexts=[("open(fn, 'r')", "file", "(jfile J)")],
+    prims=[("json.load(__f)", "!json_load {f}", "strdict J", {"f": "(jfile J)"})],
+    kwcalls={"cls": ("!src_tracker_init J blank {plate_ids_selected} {losses} {seed}", _TRK,
+                     [("plate_ids_selected", "J", None), ("losses", "J", None), ("seed", "J", None)])})
+ALL += [LS_TRACKER_INIT, LS_TRACKER_SAVE, LS_TRACKER_LOAD]
